@@ -23,12 +23,13 @@ use xml_dom::{Document, DocumentMut, Element, Node, NodeList, NodeMut};
 
 pub const BASE_DOC: &str = "<!DOCTYPE r><!--k--><r x='v&#65;'><a><b/>t</a><c/></r><!--j-->";
 /// D document, T doctype, K prolog comment, R root, J comment AFTER the root, A, B (in A), X text (in A), C, Y attribute x of R, V its text,
-/// Q the character reference that follows V in Y,
+/// Q the character reference that follows V in Y, M a second created element, appended to N before anything else happens (a DETACHED
+/// subtree: no node of it is numbered in the document),
 /// N created element, S created text, W created comment, F created (empty) fragment, Z element of ANOTHER document,
 /// L an element created by a LOOK-ALIKE document (a second parse of the same text: equal content, equal ids)
-pub const POOL: [&str; 18] = ["D", "T", "K", "R", "A", "B", "X", "C", "Y", "V", "N", "S", "W", "F", "Z", "L", "J", "Q"];
-pub const PARENTS: [&str; 8] = ["D", "R", "A", "C", "N", "Y", "X", "K"];
-pub const REFS: [&str; 11] = ["T", "K", "R", "A", "B", "X", "C", "N", "V", "J", "Q"];
+pub const POOL: [&str; 19] = ["D", "T", "K", "R", "A", "B", "X", "C", "Y", "V", "N", "S", "W", "F", "Z", "L", "J", "Q", "M"];
+pub const PARENTS: [&str; 9] = ["D", "R", "A", "C", "N", "Y", "X", "K", "M"];
+pub const REFS: [&str; 12] = ["T", "K", "R", "A", "B", "X", "C", "N", "V", "J", "Q", "M"];
 
 #[derive(Clone, Copy, PartialEq, Debug)]
 enum Kind {
@@ -82,7 +83,7 @@ impl Model {
             kids.insert(p, vec![]);
             parent.insert(p, None);
         }
-        for (p, cs) in [("D", vec!["T", "K", "R", "J"]), ("R", vec!["A", "C"]), ("A", vec!["B", "X"]), ("Y", vec!["V", "Q"])] {
+        for (p, cs) in [("D", vec!["T", "K", "R", "J"]), ("R", vec!["A", "C"]), ("A", vec!["B", "X"]), ("Y", vec!["V", "Q"]), ("N", vec!["M"])] {
             for c in &cs {
                 parent.insert(*c, Some(p));
             }
@@ -259,6 +260,14 @@ impl Real {
         nodes.insert("J", kids[3].clone());
         nodes.insert("Y", xml_dom::AsNode::as_node(&y));
         nodes.insert("N", xml_dom::AsNode::as_node(&doc.create_element("n").unwrap()));
+        nodes.insert("M", xml_dom::AsNode::as_node(&doc.create_element("m").unwrap()));
+        {
+            let n = nodes["N"].clone();
+            let m = nodes["M"].clone();
+            if let xml_dom::XmlNode::Element(e) = &n {
+                let _ = e.append_child(m);
+            }
+        }
         nodes.insert("S", xml_dom::AsNode::as_node(&doc.create_text_node("s")));
         nodes.insert("W", xml_dom::AsNode::as_node(&doc.create_comment("w")));
         nodes.insert("F", xml_dom::AsNode::as_node(&doc.create_document_fragment()));
@@ -1230,7 +1239,8 @@ pub fn xpath_union_algebra(a: &str, b: &str) -> Outcome {
 // context with the same bindings, and the document must print as before.  The queries are chosen for what a context could remember:
 // function names with and without a prefix (bound, bound to another URI, unbound), prefixed name tests, position and size, errors.
 pub const CTX_SERIES_DOC: &str = "<r xmlns:p='urn:p' xml:lang='en' x='1'><a>t</a><p:a y='2'/><a><b/></a><!--c--><?i d?></r>";
-pub const CTX_SERIES: [&str; 44] = [
+pub const CTX_SERIES: [&str; 52] = [
+    "//@xml:*", "//@xml:lang", "//xml:a", "//@p:*", "//@q:*", "//p:*", "//*[@xml:lang]", "//@zz:*",
     "count(//a)", "p:count(//a)", "q:count(//a)", "zz:count(//a)", "true()", "p:true()", "translate('abc', 'ab', 'x')", "q:translate('abc', 'ab', 'x')",
     "nosuch()", "p:nosuch()", "$x", "//a", "//p:a", "//q:a", "//zz:a", "//*[p:a]", "//a[nosuch()]", "//a[2]", "(//a)[last()]", "//a[position() = 2]",
     "position()", "last()", "concat(position(), '/', last())", "//a | //b", "name(//*[2])", "local-name(//p:a)", "namespace-uri(//p:a)", "sum(//@*)", "lang('en')", "id('x')",
